@@ -317,10 +317,11 @@ def run(chk, repo, tier):
                 if ev[0] == 'cond':
                     conds.add(sym.atom_of(ev[1] if ev[1][0] != 'not'
                                           else ev[1][1])[0])
-        want = ('cmp', '==', tuple(sorted((
-            ('sub', ('attr', SELF, 'electronbalance'), ('bv', 0)),
+        wants = [('cmp', '==', tuple(sorted((
+            ('sub', ('attr', SELF, 'electronbalance'), ix),
             ('num', Fraction(0))), key=repr)))
-        if conds != {want}:
+            for ix in (('bv', 0), ('bv', 0, 'idx'))]
+        if len(conds) != 1 or not (conds & set(wants)):
             ok = False
             found = 'balance test is %s' % [show(c) for c in conds]
         # message empty before returning
